@@ -347,6 +347,35 @@ def bootAtCd (pol : Bool) (proj : List Nat) (cds : List CountDict) (choice : Lis
 def bootAt (pol : Bool) (proj : List Nat) (chunks : List (List Snp)) (choice : List Nat) (idx : List Nat) : Rat :=
   bootAtCd pol proj (chunks.map countDict) choice idx
 
+/-! ### the composition `Misc.bootstraps_subsample_vcf`: sub-sample the VCF, chunk the dictionary, one bootstrap of the chunks
+
+    The glue is generated (`bsvProjections` = how `projections` is built from the `subsample` dictionary — an association list in
+    insertion order — and `pop_ids`; `bsvDictFilter`, `bsvDictSubsample`, `bsvFragSize`, `bsvBootPopIds`, `bsvBootMaskCorners`,
+    `bsvBootPolarized` = what is handed to `make_data_dict_vcf`, `fragment_data_dict`, `bootstraps_from_dd_chunks`). -/
+
+/-- `subsample[pop]` is defined for every requested population (otherwise KeyError) -/
+def bsvKeysOk (want : List (Nat × Nat)) (popIds : List Nat) : Bool := popIds.all fun p => want.any (·.1 == p)
+
+/-- the data dictionary of one replicate as `count_data_dict(dd, pop_ids)` reads it (calls in `pop_ids` order), and the
+    recorded draws it did not use -/
+def bsvDict (filt mc pol : Bool) (want : List (Nat × Nat)) (popIds : List Nat) (sites : List Site)
+    (draws : List (List Nat)) : Option (List Snp × List (List Nat)) :=
+  match bsvDictSubsample want with
+  | some w => ddSub (bsvDictFilter filt mc pol) w (bsvBootPopIds popIds) sites draws []
+  | none => (ddVcf (bsvDictFilter filt mc pol) (bsvBootPopIds popIds) sites).map fun d => (d, draws)
+
+/-- the chunks of one replicate -/
+def bsvChunks (nboot size : Nat) (dd : List Snp) : List (List Snp) := fragment (bsvFragSize nboot size) dd
+
+/-- one replicate: `bootstraps_from_dd_chunks(fragments, 1, pop_ids, projections, mask_corners, polarized)[0]` with the
+    recorded choice of chunks -/
+def bsvReplicateAt (filt mc pol : Bool) (nboot size : Nat) (want : List (Nat × Nat)) (popIds : List Nat)
+    (dd : List Snp) (choice : List Nat) (idx : List Nat) : Rat :=
+  bootAt (bsvBootPolarized filt mc pol) (bsvProjections want popIds) (bsvChunks nboot size dd) choice idx
+
+def bsvMaskAt (filt mc pol : Bool) (want : List (Nat × Nat)) (popIds : List Nat) (idx : List Nat) : Bool :=
+  maskAt (bsvBootPolarized filt mc pol) (bsvBootMaskCorners filt mc pol) (bsvProjections want popIds) idx
+
 /-! ### statistics from a one-dimensional spectrum `f : Nat → Rat` with sample size `n` -/
 
 /-- `S()`: mask the corners, sum -/
